@@ -249,6 +249,7 @@ def plan(tier, seed):
     parts = 12 if tier == 'quick' else 48
     shards = [{'n': n // parts, 'safety': (p % 4 == 3)} for p in range(parts)]
     shards.append({'titles': True})
+    shards.append({'twins': True})
     return shards
 
 
@@ -370,6 +371,58 @@ def run_titles(ctx, audit):
     r.sample({'sheet_titles': titles[:6]})
 
 
+def run_twins(ctx):
+    """a TEXT cell (typed with a leading apostrophe) whose text is, character for character, the text of a FORMULA elsewhere in the workbook
+    - the column that documents the formulas next to it: the text stays a text and the formula a formula, whichever comes first in
+    reading order (earlier row, earlier column of the same row, earlier sheet) and whatever the safety setting"""
+    r, rng = ctx.r, ctx.rng
+    formulas = ['=B1+B2', '=SUM(B1:B2)*2', '=IF(B1>0,"yes","no")', '=B1&"|"&B2', '=-B2', '=LEFT("abc",B1)']
+    values = [3, 6, 'yes', '1|2', -2, 'a']
+    for layout in range(6 if ctx.tier == 'quick' else 24):
+        f_i = layout % len(formulas)
+        f, v = formulas[f_i], values[f_i]
+        s1 = {'B1': 1, 'B2': 2}
+        s2 = {'B1': 1, 'B2': 2}
+        text_first = layout % 2 == 1
+        # same row (C1 / E1), another row (C4 / E4), another sheet (same address)
+        if text_first:
+            s1['C1'], s1['E1'] = wbspec.TextCell(f), f
+            s1['C4'], s1['C6'] = wbspec.TextCell(f), f
+            s2['C1'] = f
+        else:
+            s1['C1'], s1['E1'] = f, wbspec.TextCell(f)
+            s1['C4'], s1['C6'] = f, wbspec.TextCell(f)
+            s2['C1'] = wbspec.TextCell(f)
+        s1['G1'] = wbspec.TextCell(f + ' ')          # nearly the same text: a constant as well
+        s1['G2'] = '=COUNTIFS(C1:G1,"' + f.replace('"', '""') + '")' if '"' not in f else 7
+        spec = wbspec.spec(wbspec.sheet('Calc', s1), wbspec.sheet('Notes', s2))
+        for safety in (False, True):
+            path = wbspec.write(spec, os.path.join(ctx.workdir, f'twin{layout}.xlsx'))
+            t = pipeline.translate(path, safety=safety)
+            r.ev()
+            r.count('formula_twin_books')
+            if not t.ok:
+                report(r, ID, None, {'spec': spec, 'what': 'formula twins', 'safety_check': safety}, t.brief(), 'a class', monitor='round-trip')
+                continue
+            ld = pipeline.load_text(t.value)
+            if not ld.ok:
+                report(r, ID, None, {'spec': spec, 'what': 'formula twins', 'safety_check': safety}, ld.brief(), 'a class that loads', monitor='round-trip')
+                continue
+            for si, sheet in enumerate((s1, s2)):
+                for a, planted in sheet.items():
+                    if not (isinstance(planted, str) and planted.startswith('=')) or a == 'G2':
+                        continue
+                    o = pipeline.query(ld.value, si, *wbspec.rc(a))
+                    r.ev()
+                    r.nt(('twin', layout, safety, si, a))
+                    want = str(planted) if isinstance(planted, wbspec.TextCell) else v
+                    if not (o.ok and type(o.value) in (type(want), getattr(__import__('excel2pycl.src.excel', fromlist=['TextCellValue']), 'TextCellValue', str)) and o.value == want):
+                        report(r, ID, None, {'spec': spec, 'cell': [si, a], 'what': 'text cell and formula cell holding the same characters', 'safety_check': safety,
+                                             'string': str(planted), 'placement': 'text-cell' if isinstance(planted, wbspec.TextCell) else 'formula'},
+                               o.brief(), want, monitor='round-trip')
+    r.sample({'formula_twins': formulas})
+
+
 def run_shard(shard, ctx):
     r, rng = ctx.r, ctx.rng
     if Audit.inst is None:
@@ -386,6 +439,8 @@ def run_shard(shard, ctx):
         return run_batch(ctx, audit, [(s, marker, 0, True)], [c['placement']], c.get('safety_check', False), 0)
     if shard.get('titles'):
         return run_titles(ctx, audit)
+    if shard.get('twins'):
+        return run_twins(ctx)
     strings = [gen_string(rng, ctx.shard_index * 100000 + i, ctx.workdir) for i in range(shard['n'])]
     hows = PLACEMENTS
     run_batch(ctx, audit, strings, hows, shard['safety'], 0)
